@@ -170,27 +170,8 @@ def load_reference():
         return {}
 
 
-def apply_reference(repo):
-    """rename locals / parameters of the in-memory ASTs to the reference names where the structure matches"""
-    ref = load_reference()
-    full_ref = ref
-    try:
-        repo.inlined_helpers = inline_new_helpers(repo, full_ref) if full_ref else {}
-    except RecursionError:
-        repo.inlined_helpers = {}
-    # a function whose tree is identical to the reference needs no translation
-    ref = {q: r for q, r in ref.items() if q in repo.funcs and not repo.funcs[q].is_lambda and r.get("digest") != _digest(repo.funcs[q].node)}
-    for q in list(repo.inlined_helpers):
-        if q in repo.funcs:
-            _merge_renamed_locals(repo.funcs[q])
-            _drop_self_assignments(repo.funcs[q].node)
-            _thread_none_tests(repo.funcs[q].node)
-    repo.struct_objects = expand_struct_objects(repo, ref)
-    repo.star_forms = expand_star_forms(repo, ref)
-    repo.unrolled_tables = unroll_constant_tables(repo, ref)
-    repo.sentinel_getattrs = sentinel_getattr_guards(repo, ref)
-    repo.dict_get_guards = dict_get_guards(repo, ref)
-    repo.dict_gets = dict_get_to_membership(repo, ref)
+def _rename_towards_reference(repo, ref):
+    """rename parameters (by position) and locals (by abstract first binding) to the reference names"""
     renamed = {}
     for q, fi in repo.funcs.items():
         if fi.is_lambda or q not in ref:
@@ -227,12 +208,38 @@ def apply_reference(repo):
             continue
         renamed[q] = dict(mapping)
         _rename(fi.node, mapping)
+    return renamed
+
+
+def apply_reference(repo):
+    """rename locals / parameters of the in-memory ASTs to the reference names where the structure matches"""
+    ref = load_reference()
+    full_ref = ref
+    try:
+        repo.inlined_helpers = inline_new_helpers(repo, full_ref) if full_ref else {}
+    except RecursionError:
+        repo.inlined_helpers = {}
+    # a function whose tree is identical to the reference needs no translation
+    ref = {q: r for q, r in ref.items() if q in repo.funcs and not repo.funcs[q].is_lambda and r.get("digest") != _digest(repo.funcs[q].node)}
+    for q in list(repo.inlined_helpers):
+        if q in repo.funcs:
+            _merge_renamed_locals(repo.funcs[q])
+            _drop_self_assignments(repo.funcs[q].node)
+            _thread_none_tests(repo.funcs[q].node)
+    repo.struct_objects = expand_struct_objects(repo, ref)
+    repo.star_forms = expand_star_forms(repo, ref)
+    repo.unrolled_tables = unroll_constant_tables(repo, ref)
+    repo.sentinel_getattrs = sentinel_getattr_guards(repo, ref)
+    repo.dict_get_guards = dict_get_guards(repo, ref)
+    repo.dict_gets = dict_get_to_membership(repo, ref)
+    renamed = _rename_towards_reference(repo, ref)
     repo.restructured = {}
     for q, fi in repo.funcs.items():
         if fi.is_lambda or q not in ref:
             continue
         ref_locals = {n for n, _ in ref[q]["locals"]} | set(ref[q]["params"])
         n = _split_tuple_assignments(fi.node, ref_locals) + _split_chained_assignments(fi.node) + _assignments_to_ifexp(fi.node, ref[q], ref_locals)
+        n += _extend_displays(fi.node)
         n += _increment_through_temp(fi.node, ref_locals) + _ifexp_assignments(fi.node, ref_locals)
         _thread_none_tests(fi.node)
         n += _tail_duplicate(fi.node, ref_locals)
@@ -250,6 +257,9 @@ def apply_reference(repo):
         repo.dict_gets.setdefault(q_, []).extend(v_)
     repo.propagated_constants = propagate_new_constants(repo, ref) if not os.environ.get("VERIF_NO_FOLD_TEMPS") else {}
     repo.folded_temporaries = inline_new_temporaries(repo, ref) if not os.environ.get("VERIF_NO_FOLD_TEMPS") else {}
+    # temporaries folded and aliases removed may have made more first bindings comparable
+    for q_, m_ in _rename_towards_reference(repo, ref).items():
+        renamed.setdefault(q_, {}).update(m_)
     repo.respelled = respell(repo, ref)
     repo.positional = positional_calls(repo, ref)
     _clear_analysis_caches()
@@ -2779,6 +2789,38 @@ def _increment_through_temp(fnode, ref_locals):
                 blk[i], blk[i + 1] = aug, ali
                 _invalidate(owner)
                 n += 1
+    return n
+
+
+def _extend_displays(fnode):
+    """L.extend((a, b)) for a local list L and a display of values is L.append(a); L.append(b)"""
+    n = 0
+    params = {a_.arg for a_ in fnode.args.args}
+    for owner, field, blk in _blocks(fnode):
+        i = 0
+        while i < len(blk):
+            st = blk[i]
+            if isinstance(st, ast.Expr) and isinstance(st.value, ast.Call) and isinstance(st.value.func, ast.Attribute) and st.value.func.attr == "extend" \
+                    and isinstance(st.value.func.value, ast.Name) and st.value.func.value.id not in params and len(st.value.args) == 1 and not st.value.keywords \
+                    and isinstance(st.value.args[0], (ast.Tuple, ast.List)) and 1 <= len(st.value.args[0].elts) <= 6 \
+                    and not any(isinstance(e, ast.Starred) for e in st.value.args[0].elts):
+                lname = st.value.func.value.id
+                if any(isinstance(x, ast.Name) and x.id == lname for e in st.value.args[0].elts for x in ast.walk(e)):
+                    i += 1
+                    continue
+                fresh = [ast.parse("%s.append(%s)" % (lname, ast.unparse(e))).body[0] for e in st.value.args[0].elts]
+                for s_ in fresh:
+                    for y in ast.walk(s_):
+                        ast.copy_location(y, st)
+                        for c_ in ast.iter_child_nodes(y):
+                            c_._parent = y
+                    s_._parent = owner
+                blk[i:i + 1] = fresh
+                i += len(fresh)
+                _invalidate(owner)
+                n += 1
+            else:
+                i += 1
     return n
 
 
